@@ -236,7 +236,7 @@ def check(tier):
             s, e = runner.script_of(lines, idx)
             fails.append(dict(mode=m, script=[l for l in lines[s:e] if l.split()[0] in ("reset", "iface", "class", "decl")] + [lines[idx]], message=msg, observed=outs[idx]))
     # class / instance / super-proxy specifications under declaration histories: flattened() and membership against iteration
-    wf = worldcommon.stale_stream("C20", ("FLAT-STALE", "IN-STALE"), dict(quick=40, thorough=800), "flattened() / membership")(chk, tier)
+    wf = worldcommon.stale_stream("C20", ("FLAT-STALE", "IN-STALE", "SUPER-DIFF"), dict(quick=40, thorough=800), "flattened() / membership")(chk, tier)
     worldcommon.report_world(chk, wf)
     fails += [dict(f, script=f["script"] or ["-"]) for f in wf]
     seen = set()
